@@ -1004,3 +1004,90 @@ func (x *gen) directedTwoCCBatch() {
 	c.exec("unblock")
 	c.exec("flush 8")
 }
+
+// directedSnapFinish: a deposed leader with an uncommitted tail must be caught up by snapshot; the
+// transport reports the snapshot as delivered (ReportSnapshot finish) while the MsgSnap is still in
+// flight, and a heartbeat of the new leader overtakes it. The heartbeat must not make the old
+// leader commit anything on the strength of a snapshot it has not received.
+func (x *gen) directedSnapFinish() {
+	c := x.c
+	a := x.leader()
+	if a == nil || len(c.alive()) < 3 {
+		x.idle()
+		return
+	}
+	c.exec("flush 4")
+	if !a.alive || a.rn == nil || !x.isLeader(a) {
+		return
+	}
+	giveUp := func() {
+		c.exec("unblock")
+		c.exec("flush 4")
+	}
+	// a is cut off with uncommitted entries of its own
+	x.isolate(a)
+	x.net0()
+	for i := 0; i < 3; i++ {
+		c.exec(fmt.Sprintf("propose %d", a.id))
+	}
+	c.exec(fmt.Sprintf("process %d", a.id))
+	x.net0()
+	// another node wins a higher term and commits other entries at those indexes
+	b := x.electAmong(x.others(a.id), x.termOf(a), nil)
+	if b == nil {
+		giveUp()
+		return
+	}
+	for i := 0; i < 2; i++ {
+		c.exec(fmt.Sprintf("propose %d", b.id))
+	}
+	for r := 0; r < 5; r++ {
+		for _, m := range x.others(a.id) {
+			c.exec(fmt.Sprintf("process %d", m.id))
+		}
+		x.deliverAll()
+	}
+	if !x.isLeader(b) {
+		giveUp()
+		return
+	}
+	// b snapshots and compacts beyond what a could be sent as entries
+	c.exec(fmt.Sprintf("snapshot %d", b.id))
+	c.exec(fmt.Sprintf("compact %d 1000", b.id))
+	c.exec("unblock")
+	x.net0()
+	// heartbeat, a answers, b finds that it must send a snapshot; the MsgSnap stays in flight
+	for r := 0; r < 6 && x.netIndex(pb.MsgSnap, a.id) < 0 && !c.stopped; r++ {
+		c.exec(fmt.Sprintf("tick %d", b.id))
+		c.exec(fmt.Sprintf("process %d", b.id))
+		for k := len(c.net); k > 0 && len(c.net) > 0; k-- {
+			if i := x.netIndex(pb.MsgSnap, a.id); i >= 0 {
+				break
+			}
+			c.exec("deliver 0")
+		}
+		c.exec(fmt.Sprintf("process %d", a.id))
+		for k := len(c.net); k > 0 && len(c.net) > 0 && x.netIndex(pb.MsgSnap, a.id) < 0; k-- {
+			c.exec("deliver 0")
+		}
+		c.exec(fmt.Sprintf("process %d", b.id))
+	}
+	if x.netIndex(pb.MsgSnap, a.id) < 0 {
+		giveUp()
+		return
+	}
+	// the transport reports success; the next heartbeat overtakes the snapshot
+	c.exec("reportsnap 0 1")
+	for r := 0; r < 2; r++ {
+		for t := 0; t < b.cfg.HB; t++ {
+			c.exec(fmt.Sprintf("tick %d", b.id))
+		}
+		c.exec(fmt.Sprintf("process %d", b.id))
+		for i := x.netIndex(pb.MsgHeartbeat, a.id); i >= 0; i = x.netIndex(pb.MsgHeartbeat, a.id) {
+			c.exec(fmt.Sprintf("deliver %d", i))
+		}
+		c.exec(fmt.Sprintf("process %d", a.id))
+		c.exec(fmt.Sprintf("process %d", a.id))
+	}
+	c.exec("flush 8")
+}
